@@ -70,6 +70,13 @@ def main():
             meta["author_notes"] = open(notes).read()[:6000]
         dst = os.path.join(VERIF, "seeded", "%s-%s" % (pid, n))
         os.makedirs(dst, exist_ok=True)
+        # keep the history: what the checks said the first time this change was evaluated
+        try:
+            prev = json.load(open(os.path.join(dst, "meta.json")))
+            meta["history"] = prev.get("history", []) + [{"caught": prev.get("caught"), "exit": prev["check"]["exit"],
+                                                           "summary": prev["check"].get("summary")}]
+        except Exception:
+            pass
         shutil.copy(patch, os.path.join(dst, "patch.diff"))
         shutil.copy(demo, os.path.join(dst, "demo.py"))
         with open(os.path.join(dst, "meta.json"), "w") as f:
